@@ -2,7 +2,10 @@
 """Regenerates MANIFEST.json from checks.json, not_applicable.json and properties.jsonl."""
 import json, os, subprocess
 ROOT = os.path.dirname(os.path.dirname(os.path.abspath(__file__)))
-cfg = json.load(open(os.path.join(ROOT, "checks.json")))
+import glob
+cfg = {"checks": {}}
+for f in sorted(glob.glob(os.path.join(ROOT, "props", "c*", "check.json"))):
+    cfg["checks"][os.path.basename(os.path.dirname(f)).upper()] = json.load(open(f))
 na = json.load(open(os.path.join(ROOT, "not_applicable.json")))
 props = [json.loads(l)["id"] for l in open(os.path.join(ROOT, "properties.jsonl")) if l.strip()]
 hooks_commits = []
